@@ -1,9 +1,34 @@
 #!/bin/bash
 # usage: check.sh <property id> <quick|thorough>
-# Rebuilds nothing but reads /repo's current working tree on every run (go/packages + go/ssa inside gocv).
+# Reads /repo's current working tree on every run (go/packages + go/ssa inside gocv); rebuilds gocv when its sources changed.
+# quick:    every obligation of the property, 10 s per obligation, first decisive solver.
+# thorough: the same obligations with 60 s per obligation and every solver run on every obligation (they must agree),
+#           and afterwards the must-fail corpus of the property: each seeded change
+#           under /verif/seeded/<id>-*/ is applied to a scratch copy of the current tree and must be reported
+#           (result recorded in the evidence file under coverage.selftest; a missed seed is not a property violation).
 export GOFLAGS=-mod=mod GOPROXY=off GOSUMDB=off GOTOOLCHAIN=local
 cd /verif
 if [ ! -x /verif/bin/gocv ] || [ -n "$(find /verif/gocv -name '*.go' -newer /verif/bin/gocv 2>/dev/null | head -1)" ]; then
   (cd /verif/gocv && go build -o /verif/bin/gocv .) || { echo "cannot build gocv"; exit 2; }
 fi
-exec /verif/bin/gocv check -prop "$1" -tier "${2:-quick}"
+tier="${2:-quick}"
+if [ "$tier" != thorough ]; then
+  exec /verif/bin/gocv check -prop "$1" -tier "$tier"
+fi
+/verif/bin/gocv check -prop "$1" -tier thorough; rc=$?
+if ls -d /verif/seeded/$1-*/ >/dev/null 2>&1; then
+  st=$(/verif/tools/selftest_seeds.sh "$1-*" 2>&1 | sed 's/^/selftest: /')
+  echo "$st"
+  python3 - "$1" "$st" <<'PY'
+import json,sys
+p='/verif/evidence/%s.json'%sys.argv[1]
+try:
+    ev=json.load(open(p))
+    lines=[l for l in sys.argv[2].split('\n') if l.strip()]
+    ev.setdefault('coverage',{})['selftest']={'seeded_changes':len(lines),'detected':sum('detected' in l for l in lines),'missed':[l for l in lines if 'MISSED' in l],'skipped':sum('skipped' in l for l in lines)}
+    json.dump(ev,open(p,'w'),indent=1)
+except Exception as e:
+    print('selftest: evidence not updated:',e)
+PY
+fi
+exit $rc
